@@ -95,3 +95,15 @@ package text
 //@   property C07
 //@   flags frameonly
 //@   noread fonts
+
+// ---- C09: de-duplication drops a fragment only when a fragment with the same text at the same rounded position (BOTH
+// coordinates) has been kept before; kept fragments stay in order ----
+//@ func (*Extractor) deduplicateFragments results (res)
+//@   property C09
+//@   flags nosafety
+//@   loop 0:
+//@     exhaustive
+//@     step identified_by_rounded_position_and_text: key.x == int(frag.X + 0.5) && key.y == int(frag.Y + 0.5) && key.text == frag.Text
+//@     step dropped_only_when_seen_before: len(result) == prev(len(result)) ==> has(prev(seen), key) && prev(seen)[key]
+//@     step kept_in_order: len(result) == prev(len(result)) || (len(result) == prev(len(result)) + 1 && result[len(result)-1] == frag)
+//@     step seen_only_grows_by_this_key: forall k fragKey :: {has(seen, k)} k != key ==> has(seen, k) == has(prev(seen), k) && seen[k] == prev(seen)[k]
